@@ -343,6 +343,8 @@ def normalise_outs(outs: list) -> list:
             res.append(["libSend", [o[1][0], o[1][1], hs], o[2]])
         elif o[0] in ("upRaw", "data"):
             continue
+        elif o[0] == "endData":       # EndData from a websocket stream: `pass` in H11Protocol.stream_send, nothing to observe
+            continue
         elif o[0] == "spawn":
             res.append(["spawn", o[1], {k: v for k, v in o[2].items() if not k.startswith("_")}])
         elif o[0] == "response":      # ws stream events never surface here
